@@ -1,7 +1,7 @@
 #!/usr/bin/env python3
 """Confirm a seeded change in a scratch worktree and record the outcome in seeded/<id>/meta.json.
 
-usage: tools/seedverify.py <seed-id e.g. C12-B> [--no-tests]
+usage: tools/seedverify.py <seed-id e.g. C12-B> [--no-tests | --check-only (keep the recorded demo/test results, rerun only the check)]
  1. demo on the unchanged tree must exit 0;  2. patch applies;  3. demo with the change must exit != 0;
  4. the test files the author ran (from meta_agent.json) still pass with the change;
  5. ./check <pid> with VERIF_REPO pointing at the changed tree: exit code, VIOLATION lines (with/without a concrete input).
@@ -29,12 +29,14 @@ def sh(cmd, cwd=None, env=None, timeout=3600):
 
 def main():
     sid = sys.argv[1]
-    run_tests = "--no-tests" not in sys.argv
+    run_tests = "--no-tests" not in sys.argv and "--check-only" not in sys.argv
+    check_only = "--check-only" in sys.argv
     pid = sid.split("-")[0]
     d = V / "seeded" / sid
     wt = f"/tmp/wt-seedverify-{sid}"
     agent = json.load(open(d / "meta_agent.json")) if (d / "meta_agent.json").exists() else {}
     out = {"property": pid, "seed": sid, "summary": agent.get("summary"), "needs": agent.get("needs"), "ran": {}}
+    prev = json.load(open(d / "meta.json")) if check_only and (d / "meta.json").exists() else None
     sh(f"git -C /repo worktree remove --force {wt}")
     rc, o = sh(f"git -C /repo worktree add -q {wt} HEAD")
     if rc:
@@ -72,6 +74,10 @@ def main():
             out["ran"]["check_summary"] = [l for l in oc.splitlines() if l.startswith("[C")][-1:]
     finally:
         sh(f"git -C /repo worktree remove --force {wt}")
+    if prev is not None:  # keep the earlier confirmation (demo + tests), refresh only what the check reports
+        for k, v in prev["ran"].items():
+            if k.startswith(("demo_", "tests_with_change")):
+                out["ran"][k] = v
     r = out["ran"]
     out["confirmed"] = bool(r.get("demo_unchanged_exit") == 0 and r.get("patch_applies") and r.get("demo_changed_exit") not in (0, None)
                             and all(t["exit"] == 0 for t in r.get("tests_with_change", {}).values()))
